@@ -139,7 +139,15 @@ func getters(c *mon.Ctx, tag string, x ebp.EncoderBoundaryPoint, e *ref.EBP, in 
 
 func decode(c *mon.Ctx, e *ref.EBP) {
 	in := e.Bytes()
+	in = gen.SlackBy(in, gen.HashString(string(in)))
 	snap := append([]byte{}, in...)
+	if gen.HashString(string(in))%8 == 3 {
+		// right after calls that fail: no state is carried over
+		ebp.ReadEncoderBoundaryPoint(in[:1])
+		ebp.ReadEncoderBoundaryPoint(nil)
+		ebp.ReadEncoderBoundaryPoint([]byte{0x00, 0x00})
+		c.Count("decode_after_failed_decode")
+	}
 	x, err := ebp.ReadEncoderBoundaryPoint(in)
 	c.Eval(1)
 	if err != nil || x == nil {
